@@ -765,6 +765,7 @@ func TestC05(t *testing.T) {
 		runUpgradeFailures(r)
 		runOriginBytes(r)
 		runHookTexts(r)
+		runClosingSessionRequests(r)
 	}
 	if r.Lane == 0 {
 		quicLanes(r, "admission")
@@ -818,5 +819,65 @@ func TestC05(t *testing.T) {
 	if r.Thorough() {
 		r.Obs("table_enumerated_completely", 1)
 		r.Exhaustive("the abstract admission table (48 server configurations x 1440 request shapes) and the routing table (9 attach variants x 16 paths x methods); exhaustive with respect to that abstraction only")
+	}
+}
+
+// runClosingSessionRequests: a session that is registered and on its way out - a graceful
+// Close(false) of a polling session between two polls, whose close packet needs the client's next
+// poll to travel - is still a known session: the client's next poll and data request must pass the
+// admission checks (known sid, same transport), not be answered 'Session ID unknown', and must not
+// produce a connection_error event.
+func runClosingSessionRequests(r *rep.Report) {
+	for _, rev := range []int{4, 3} {
+		so := &config.ServerOptions{}
+		so.SetAllowEIO3(true)
+		so.SetPingInterval(time.Hour)
+		so.SetPingTimeout(time.Hour)
+		eng := engine.NewServer(so)
+		errs := 0
+		eng.On("connection_error", func(...any) { errs++ })
+		rec := httptest.NewRecorder()
+		eng.ServeHTTP(rec, httptest.NewRequest("GET", fmt.Sprintf("http://h/engine.io/?EIO=%d&transport=polling", rev), nil))
+		body := rec.Body.String()
+		k := strings.Index(body, `"sid":"`)
+		if k < 0 {
+			r.Inconclusive("closing-session lane: handshake failed")
+			eng.Close()
+			continue
+		}
+		sid := body[k+7:]
+		sid = sid[:strings.Index(sid, `"`)]
+		s, ok := eng.Clients().Load(sid)
+		if !ok {
+			eng.Close()
+			continue
+		}
+		s.Send(types.NewStringBufferString("last"), nil, nil)
+		s.Close(false)
+		r.Case(fmt.Sprintf("closing-session-requests/v%d", rev), s.ReadyState() == "closing")
+		r.Obs("requests_naming_a_closing_session", 2)
+		// a data request first (it does not complete the close), then the poll that carries the close packet
+		for _, q := range []struct{ method, body string }{{"POST", map[int]string{4: "4x", 3: "2:4x"}[rev]}, {"GET", ""}} {
+			if _, still := eng.Clients().Load(sid); !still {
+				break
+			}
+			rec := httptest.NewRecorder()
+			req := httptest.NewRequest(q.method, fmt.Sprintf("http://h/engine.io/?EIO=%d&transport=polling&sid=%s", rev, sid), strings.NewReader(q.body))
+			done := make(chan struct{})
+			go func() { defer close(done); eng.ServeHTTP(rec, req) }()
+			select {
+			case <-done:
+			case <-time.After(5 * time.Second):
+				r.Obs("closing_session_requests_unanswered_after_5s", 1)
+				continue
+			}
+			if rec.Code == 400 && strings.Contains(rec.Body.String(), `"code":1`) {
+				r.Violationf("c05-admission-decision:closing-session", map[string]any{"rev": rev, "method": q.method}, "%s naming a session that is registered and in state 'closing' (graceful close waiting for the client's next poll) was answered %d %.60q: the sid is known, the request must be admitted", q.method, rec.Code, rec.Body.String())
+			}
+		}
+		if errs != 0 {
+			r.Violationf("c05-connection-error-events", map[string]any{"rev": rev}, "%d connection_error events for requests naming a registered (closing) session", errs)
+		}
+		eng.Close()
 	}
 }
